@@ -169,6 +169,10 @@ def run_check(tier, seed):
                     run.stat('perturb:rejected')
         n_states += 1
     run.cov['search_replay'] = dict(theorems=n_states, steps=n_steps, theories=thys)
+
+    # ---------------- (C) goals worked out of order, every state copied and the copy (or the original) edited at every gap
+    n_ooo = out_of_order_family(run, r, 12 if tier == 'quick' else 150)
+    run.cov['search_out_of_order'] = n_ooo
     run.sample(dict(theorem='%s.%s' % thms[0][:1] + (thms[0][1]['name'],) if False else thms[0][1]['name'], steps=thms[0][1]['steps'][:2]))
     run.cov['rule'] = ('structural ops on random well-numbered proofs (3-6 lines, nested blocks); replay of the recorded steps of library '
                        'theorems (%s) with invariants after every step, each step first on a copy, 30%% repeated; non-trivial = every case'
@@ -176,6 +180,87 @@ def run_check(tier, seed):
     run.assumptions = ['the ~25 individual methods are explored through the recorded proofs, not modelled',
                        'renumbering order-preservation is proved (can_depend_on_incr); well-numberedness of results is validated per instance']
     return run.finish()
+
+
+def out_of_order_family(run, r, n_goals):
+    """Conjunctions of 2-4 easy implications; the conjuncts are split off and finished in a random order, so that finished
+    blocks come to stand after open gaps.  After every step the state is copied; one of the two is edited at each open gap
+    (cut / introduction: lines are inserted and following ones renumbered) and the other must stay exactly as it was,
+    keep its invariants and re-check."""
+    from kernel.type import BoolType
+    stats = dict(goals=0, steps=0, copy_edits=0)
+    for gi in range(n_goals):
+        k = r.choice([2, 2, 3, 3, 4])
+        atoms = r.sample(['A', 'B', 'C', 'D'], 2)
+        conj = []
+        for _ in range(k):
+            x, y = r.sample(atoms, 2) if r.random() < 0.7 else (atoms[0], atoms[0])
+            conj.append(('%s & %s --> %s' % (x, y, x), 'conjD1') if r.random() < 0.5 else ('%s & %s --> %s' % (x, y, y), 'conjD2'))
+        text = ' & '.join('(%s)' % c for c, _ in conj)
+        name = 'generated.%s' % text
+        try:
+            context.set_context('logic_base', vars={a_: BoolType for a_ in 'ABCD'})
+            goal_t = parser.parse_term(text)
+            state = server.parse_init_state(goal_t)
+            goal = Thm(goal_t)
+            for i in range(k - 1):
+                method.apply_method(state, {'method_name': 'apply_backward_step', 'goal_id': str(i), 'theorem': 'conjI'})
+        except RecursionError:
+            raise
+        except Exception as e:
+            run.stat('ooo_setup_exc:' + type(e).__name__)
+            continue
+        stats['goals'] += 1
+        order = list(range(k))
+        r.shuffle(order)
+        script = []
+        for g in order:
+            script.append({'method_name': 'introduction', 'goal_id': str(g), 'names': ''})
+            script.append({'method_name': 'apply_forward_step', 'goal_id': '%d.1' % g, 'fact_ids': ['%d.0' % g], 'theorem': conj[g][1]})
+        for si, step in enumerate([None] + script):
+            if step is not None:
+                try:
+                    method.apply_method(state, step)
+                except RecursionError:
+                    raise
+                except Exception as e:
+                    run.stat('ooo_step_exc:%s:%s' % (step['method_name'], type(e).__name__))
+                    break
+                stats['steps'] += 1
+                check_state(run, state, goal, name, 'out-of-order step %d %s at %s' % (si, step['method_name'], step['goal_id']))
+            top_gaps = [it.id for it in state.prf.items if it.rule == 'sorry']
+            for gid in top_gaps:
+                for edit in ({'method_name': 'cut', 'goal_id': str(gid), 'goal': 'D --> D'},
+                             {'method_name': 'introduction', 'goal_id': str(gid), 'names': ''}):
+                    edit_original = r.random() < 0.3
+                    if not edit_original:
+                        keep, work = state, copy.copy(state)            # the copy is edited, the state must not move
+                    else:
+                        work = copy.copy(state)                         # stands for the original ...
+                        keep = copy.copy(work)                          # ... whose copy is kept aside while it is edited
+                    before = (export_lines(keep), shape_snapshot(keep.prf))
+                    before_state = (export_lines(state), shape_snapshot(state.prf))
+                    try:
+                        method.apply_method(work, edit)
+                    except RecursionError:
+                        raise
+                    except Exception as e:
+                        run.stat('ooo_edit_rejected:%s:%s' % (edit['method_name'], type(e).__name__))
+                        continue
+                    stats['copy_edits'] += 1
+                    run.count(('ooo', text, si, str(gid), edit['method_name'], edit_original), nontrivial=True)
+                    moved = [w for w, (obj, bef) in (('the state kept aside', (keep, before)), ('the state both descend from', (state, before_state)))
+                             if (export_lines(obj), shape_snapshot(obj.prf)) != bef]
+                    if moved:
+                        run.violation('property', 'editing one copy of a proof state (%s at gap %s) changed %s; goal %s, conjuncts finished in order %s, after %d steps'
+                                      % (edit['method_name'], gid, ' and '.join(moved), text, order, si),
+                                      dict(goal=text, split='apply_backward_step conjI at 0..%d' % (k - 2), script=script[:si], edit=edit,
+                                           before=before_state[0], after=export_lines(state)),
+                                      key='C13:copy-isolation')
+                        # the shared structure has been damaged: restart from a clean replay is not needed, the verdict stands
+                        return stats
+                    check_state(run, keep, goal, name, 'copy kept aside while %s was applied at %s' % (edit['method_name'], gid))
+    return stats
 
 
 def check_state(run, state, goal, name, where, structural_only=False):
